@@ -14,7 +14,8 @@ PID = "C14"
 RULE = (
     "case = element-tree recipe (shared elements/classes, properties, tuple items, compositions, "
     "defaults) x 2-4 threads each with 2-4 values (both verdicts) x a schedule = list of (gap, pick) "
-    "pairs executed by an owned scheduler: real threads, exactly one runnable, a sys.settrace line "
+    "pairs plus `focus` entries (module, n, pick: switch at the n-th line executed inside that statham "
+    "module) executed by an owned scheduler: real threads, exactly one runnable, a sys.settrace line "
     "hook in statham frames hands the baton after `gap` lines to the pick-th next thread - so a run "
     "is a deterministic function of (recipe, values, schedule). Oracle: every call's verdict kind and "
     "read-back result equal the sequential execution of the same calls on the same tree, and the tree "
@@ -33,16 +34,44 @@ BUDGET = {"quick": 150, "thorough": 1500}
 
 observe.register_formats()
 CFG = R.RCfg(depth=2)
+# small modules with shared or process-wide state get targeted switch points
+MODULES = ["schema/validation/format.py", "schema/validation/format.py", "schema/validation/object.py",
+           "schema/validation/base.py", "schema/validation/array.py", "schema/validation/string.py",
+           "schema/elements/properties.py", "schema/elements/items.py", "schema/elements/composition.py",
+           "schema/property.py", "schema/elements/base.py", "schema/elements/meta.py", "schema/elements/object.py",
+           "schema/validation/__init__.py", "schema/exceptions.py"]
 
 
 @st.composite
 def cases(draw):
     recipe = draw(R.recipes(CFG))
+    if draw(st.integers(0, 3)) == 0:
+        # process-wide format registry incl. the built-in checkers (whose bodies are statham frames)
+        fmt = draw(st.sampled_from(["uuid", "date-time", "vf-even-len"]))
+        inner = {"id": 9001, "kind": draw(st.sampled_from(["String", "Element"])), "kw": {"format": fmt}}
+        if draw(st.booleans()):
+            recipe = inner
+        else:
+            recipe = {"id": 9000, "kind": draw(st.sampled_from(["AnyOf", "AllOf", "Array"])), "kw": {}}
+            if recipe["kind"] == "Array":
+                recipe["sub"] = {"items": inner}
+            else:
+                recipe["elements"] = [inner, {"id": 9002, "kind": "Integer", "kw": {}}]
     schema = R.to_schema(recipe)
     n = draw(st.integers(2, 4))
-    threads = [draw(values_for(schema, 2, 4)) for _ in range(n)]
+    # threads draw (with repetition) from one small pool, so that the same value is validated by
+    # several threads and several times
+    pool = draw(values_for(schema, 3, 5))
+    if "format" in canon(schema):
+        strs = ["12345678-1234-5678-1234-567812345678", "not-a-uuid", "1990-12-31T23:59:60Z", "yesterday", "ab", "abc"]
+        pool += draw(st.lists(st.sampled_from(strs), min_size=2, max_size=3))
+        if '"array"' in canon(schema):
+            pool += [[draw(st.sampled_from(strs))], [draw(st.sampled_from(strs)), draw(st.sampled_from(strs))]]
+    threads = [draw(st.lists(st.sampled_from(pool), min_size=2, max_size=5)) for _ in range(n)]
     schedule = draw(st.lists(st.tuples(st.one_of(st.integers(0, 30), st.integers(0, 400)), st.integers(1, 3)), min_size=4, max_size=40))
-    return {"recipe": recipe, "threads": threads, "schedule": [list(x) for x in schedule]}
+    focus = draw(st.lists(st.tuples(st.sampled_from(MODULES), st.integers(0, 40), st.integers(1, 3)), max_size=6))
+    return {"recipe": recipe, "threads": threads, "schedule": [list(x) for x in schedule],
+            "focus": [list(x) for x in focus]}
 
 
 def observe_call(element, value):
@@ -75,7 +104,7 @@ def predicate(case, stats):
     if observe.snapshot(element) != snap0:
         # purity is C08's subject; without it the sequential baseline is meaningless
         stats.inconclusive["tree-changed-by-sequential-run"] += 1
-    sched = Scheduler(case["schedule"])
+    sched = Scheduler(case["schedule"], focus=case.get("focus", ()))
     fns = [(lambda vs=values: [observe_call(element, v) for v in vs]) for values in case["threads"]]
     try:
         got = sched.run(fns)
@@ -88,7 +117,7 @@ def predicate(case, stats):
     # the same schedule against a FRESH tree: first-ever calls race with each other (lazy initialisation)
     fresh = R.build(case["recipe"])
     snap_fresh = observe.snapshot(fresh)
-    sched2 = Scheduler(case["schedule"])
+    sched2 = Scheduler(case["schedule"], focus=case.get("focus", ()))
     fns2 = [(lambda vs=values: [observe_call(fresh, v) for v in vs]) for values in case["threads"]]
     try:
         got2 = sched2.run(fns2)
